@@ -31,8 +31,8 @@ CFG = {'module': 'Dnp3.Props.C05',
                   'the real OutstationTask (engine outstationdb)'],
  'assumptions': ['tokio timer and Notify semantics; xxh64 collision-free on compared fragments (model '
                  'compares octets)'],
- 'level_text': 'Lean theorems over the session model (a repeat is classified as such and is echoed, not '
-               'executed; retries re-send the stored response; a READ repeated during the confirm wait of any '
+ 'level_text': 'Lean theorems over the session model (a repeat is classified as such and is echoed verbatim '
+               'from idle and from the unsolicited confirm wait, not executed; retries re-send the stored response; a READ repeated during the confirm wait of any '
                'fragment of a series re-sends that fragment) for all states; tie: correspondence of the '
                'real task vs model with repeats injected at every position + trace monitors',
  'level_note': 'trusted: Lean kernel, harness, scripted callbacks; Rust modelled not verified; runtime '
